@@ -67,6 +67,15 @@ type Snap struct {
 	Hyper   []byte `json:"hy"`
 }
 
+// Ack is what one client call of "node-add-concurrent" got back.
+type Ack struct {
+	Client int      `json:"client"`
+	Seq    int      `json:"seq"`
+	Events [][]byte `json:"events"`
+	Snaps  []Snap   `json:"snaps,omitempty"`
+	Err    string   `json:"err,omitempty"`
+}
+
 // Plan is the faulty-store plan of a node.
 type Plan struct {
 	KillBefore int `json:"kill_before,omitempty"` // SIGKILL self just before the k-th Mutate (1-based) reaches RocksDB
@@ -170,4 +179,5 @@ type Resp struct {
 	Emitted   int               `json:"emitted,omitempty"` // snapshots seen on the node's snapshots channel
 	Bad       int               `json:"bad,omitempty"`
 	URL       string            `json:"url,omitempty"` // node-mgmt: base URL of the management API
+	Acks      []Ack             `json:"acks,omitempty"`
 }
